@@ -207,6 +207,11 @@ def textbook(red, clean):
 		return any(clean)
 	if red == "all":
 		return all(clean)
+	if red == "stdev-pop":
+		if len(clean) < 2:
+			raise ValueError("needs two values")
+		m = sum(clean) / len(clean)
+		return (sum((x - m) * (x - m) for x in clean) / len(clean)) ** 0.5
 	if red == "stdev":
 		if len(clean) < 2:
 			raise ValueError("needs two values")
@@ -235,7 +240,10 @@ def run_reduce(chk, spec):
 			return
 		v = sv.value
 		vals = list(v._underlying)
-	o = call(getattr(v, red))
+	if red == "stdev-pop":
+		o = call(lambda: v.stdev(population=True) if len(vals) % 2 else v.stdev(True))
+	else:
+		o = call(getattr(v, red))
 	chk.judged("reduce", ("reduce", red, spec.get("kind"), spec.get("mask")))
 	if len(v) != len(vals):
 		chk.fail("len counts None", "len/none-not-counted", f"len(Vector({vals!r})) = {len(v)}")
@@ -250,6 +258,22 @@ def run_group_reduce(chk, spec):
 	keys, vals = spec["keys"], spec["values"]
 	t = Table([Vector(list(keys), name="k"), Vector(list(vals), name="v")])
 	o = call(lambda: t.aggregate(over="k", sum_over="v", mean_over="v", min_over="v", max_over="v", count_over="v", stdev_over="v"))
+	if spec.get("count_key"):
+		# counting the key column itself (by name or as the column): the None-key group counts 0 non-None keys
+		ck = call(lambda: t.aggregate(over="k", count_over=["k", "v"] if spec["count_key"] == "name" else [t["k"], t["v"]]))
+		chk.judged("group-reduce", ("group-count-key", spec.get("kind"), spec["count_key"], any(k is None for k in keys)))
+		if ck.ok and isinstance(ck.value, Table) and len(ck.value.cols()) == 3:
+			kc, cntk, cntv = [list(c._underlying) for c in ck.value.cols()]
+			for gk, a, b in zip(kc, cntk, cntv):
+				rows = [i for i, k in enumerate(keys) if (k is None and gk is None) or (k is not None and gk is not None and k == gk)]
+				ea, eb = sum(1 for i in rows if keys[i] is not None), sum(1 for i in rows if vals[i] is not None)
+				if a != ea or b != eb:
+					chk.fail("per-group aggregates skip None (count counts the non-None values of the counted column)", "group-reduce/value/count-of-key-column",
+						f"{spec!r}: group {gk!r}: count of the key column {a!r} (expected {ea}), count of v {b!r} (expected {eb})")
+					return
+		elif not ck.ok:
+			chk.fail("per-group aggregates skip None", f"group-reduce/raises/count-of-key-column/{type(ck.exc).__name__}", f"{spec!r} raised {ck!r}")
+			return
 	groups = []
 	for k, x in zip(keys, vals):
 		for g in groups:
@@ -409,7 +433,103 @@ def run_na(chk, spec):
 		chk.fail("fillna does not change its operand", "na/fillna-mutates", f"Vector({vals!r}).fillna({fill!r}) changed the vector")
 
 
-RUNNERS = {"arith_none": run_arith_none, "compare_none": run_compare_none, "compare_meta": run_compare_meta, "reduce": run_reduce,
+def run_row_none(chk, spec):
+	"""rows are vectors: after None is written into a cell (through the column handle or the table), a row read again treats it as None everywhere"""
+	import random
+	rng = random.Random(spec["seed"])
+	n, c = spec["n"], spec["c"]
+	cols = [[rng.choice([1, 2, 3, 5]) for _ in range(n)] for _ in range(c)]
+	t = Table([Vector(list(col), name=f"c{j}") for j, col in enumerate(cols)])
+	i, j = rng.randrange(n), rng.randrange(c)
+	if spec["read_first"] == "row":
+		list(t[i])
+	elif spec["read_first"] == "shape":
+		t.shape
+	elif spec["read_first"] == "iterate":
+		for _ in t:
+			pass
+	via = spec["via"]
+	w = call(lambda: {"attr": lambda: getattr(t, f"c{j}").__setitem__(i, None), "item": lambda: t[f"c{j}"].__setitem__(i, None), "cols": lambda: t.cols()[j].__setitem__(i, None), "cell": lambda: t.__setitem__((i, j), None)}[via]())
+	if not w.ok:
+		chk.skip("row-none-write-refused")
+		return
+	cols[j][i] = None
+	row_model = [cols[k][i] for k in range(c)]
+	chk.judged("na-triple", ("row-none", spec["read_first"], via, n, c))
+	r = call(lambda: t[i])
+	if not r.ok:
+		chk.skip("row-none-row-raised")
+		return
+	row = r.value
+	clean = [x for x in row_model if x is not None]
+	checks = [("isna", lambda: list(row.isna()), [x is None for x in row_model]), ("sum", lambda: row.sum(), sum(clean)), ("max", lambda: row.max(), max(clean) if clean else None),
+		("row+1", lambda: list(row + 1), [None if x is None else x + 1 for x in row_model]), ("row>0", lambda: list(row > 0), [False if x is None else x > 0 for x in row_model]),
+		("fillna", lambda: list(row.fillna(0)), [0 if x is None else x for x in row_model]), ("dropna", lambda: list(row.dropna()), clean), ("len", lambda: len(row), c)]
+	for name, f, exp in checks:
+		if name in ("max",) and not clean:
+			continue
+		o = call(f)
+		if not o.ok:
+			chk.fail("None is treated as None in rows as in any vector", f"row-none/raises/{name}/{type(o.exc).__name__}", f"{spec!r}: row {row_model!r}: {name} raised {o!r}")
+			return
+		if o.value != exp:
+			chk.fail("None is treated as None in rows as in any vector", f"row-none/{name}", f"{spec!r}: row {i} is {row_model!r} (None written through {via}): {name} gives {o.value!r}, expected {exp!r}")
+			return
+
+
+def run_arith_meta(chk, spec):
+	"""serif's own date arithmetic (dates + days, also on a date vector promoted in place to datetime): with None among the operands the result is None
+	exactly there and what the None-free operation gives elsewhere"""
+	dates, days, form = list(spec["dates"]), spec["days"], spec["form"]
+	n = len(dates)
+
+	def build(vals):
+		v = Vector(list(vals))
+		if spec["promoted"]:
+			# promote in place, then restore the element: the vector is datetime-typed but still the object born as a date vector
+			k = next(i for i, x in enumerate(vals) if x is not None)
+			v[k] = V.datetime(2020, 1, 31, 12, 30)
+		return v
+	other_full = days if form == "scalar" else (Vector(list(days)) if form == "vector" else list(days))
+	base = call(lambda: build(dates) + other_full)
+	if not base.ok or len(base.value) != n:
+		chk.skip("arith-meta-base-raises")
+		return
+	basevals = list(base.value._underlying)
+	if any(isinstance(x, tuple) for x in basevals):
+		chk.skip("arith-meta-pairing-fallback")      # serif pairs operands it cannot combine into tuples: not an arithmetic result
+		return
+	lm, rm = spec["left_mask"], spec["right_mask"]
+	left = masked(dates, lm)
+	if all(x is None for x in left):
+		chk.skip("arith-meta-all-none")
+		return
+	if form == "scalar":
+		other = days
+		rm = [False] * n
+	else:
+		od = masked(days, rm)
+		if all(x is None for x in od):
+			chk.skip("arith-meta-all-none")
+			return
+		other = Vector(od) if form == "vector" else od
+	o = call(lambda: build(left) + other)
+	chk.judged("arith-none", ("arith-meta", form, spec["promoted"], mask_sig(lm), mask_sig(rm)))
+	tag = f"dates+days/{form}/{'promoted' if spec['promoted'] else 'plain'}"
+	if not o.ok:
+		chk.fail("None propagates through arithmetic instead of making it fail", f"arith-none/raises-meta/{tag}/{type(o.exc).__name__}", f"{spec!r}: without None -> {short(basevals, 120)}; with None serif raised {o!r}")
+		return
+	got = list(o.value._underlying)
+	for k in range(n):
+		e = None if (lm[k] or rm[k]) else basevals[k]
+		if spec["promoted"] and not (lm[k] or rm[k]) and k == next(i for i, x in enumerate(left) if x is not None) and basevals[k] != got[k]:
+			continue      # (the element used for the promotion differs between the two builds)
+		if (got[k] is None) != (e is None) or (e is not None and got[k] != e):
+			chk.fail("the result is None exactly where an operand is None", f"arith-none/meta-value/{tag}", f"{spec!r}: position {k} is {got[k]!r}, expected {e!r}; result {short(got, 160)}")
+			return
+
+
+RUNNERS = {"row_none": run_row_none, "arith_meta": run_arith_meta, "arith_none": run_arith_none, "compare_none": run_compare_none, "compare_meta": run_compare_meta, "reduce": run_reduce,
 	"group_reduce": run_group_reduce, "na": run_na}
 RUNNERS["recompute"] = recompute.runner("C06")
 
@@ -484,7 +604,7 @@ def run(chk):
 								om[rng.randrange(n)] = True
 							chk.case("compare_meta", {"a": base, "mask_bits": list(mask), "other": other, "other_mask": om, "opname": opname, "kind": kind}, "compare-meta-other-none")
 			# reductions
-			for red in ("sum", "mean", "min", "max", "stdev", "any", "all"):
+			for red in ("sum", "mean", "min", "max", "stdev", "any", "all", "stdev-pop"):
 				chk.case("reduce", {"values": a, "red": red, "kind": kind, "mask": ms}, "reduce")
 				if any(mask) and not all(mask) and red in ("sum", "mean", "min", "max") and kind not in ("complex",):
 					chk.case("reduce", {"values": a, "red": red, "kind": kind, "mask": ms, "presort": [(False, False), (True, False), (False, True), (True, True)][(idx + len(red)) % 4]}, "reduce-presorted")
@@ -528,6 +648,19 @@ def run(chk):
 			continue
 		for build in ("direct", "setitem") if any(x is None for x in vals) else ("direct",):
 			chk.case("na", {"values": vals, "fill": rng.choice([0.0, 9.5]), "fillclass": "same", "kind": "float-nan", "mask": mask_sig([x is None for x in vals]), "name": None, "build": build}, "na-nan")
+	for _ in range(200 if chk.quick() else 1200):
+		chk.case("row_none", {"seed": rng.randrange(10**9), "n": rng.choice([1, 2, 3]), "c": rng.choice([2, 3]), "read_first": rng.choice(["row", "shape", "iterate", "nothing"]),
+			"via": rng.choice(["attr", "item", "cols", "cell"])}, "row-none")
+	for _ in range(200 if chk.quick() else 1500):
+		n = rng.choice([1, 2, 3, 4])
+		dates = [rng.choice(ARITH_VALUES["date"]) for _ in range(n)]
+		form = rng.choice(["scalar", "vector", "list"])
+		days = rng.choice([1, 30, -2]) if form == "scalar" else [rng.choice([0, 1, 30, -2]) for _ in range(n)]
+		lm = [rng.random() < 0.3 for _ in range(n)]
+		rm = [rng.random() < 0.3 for _ in range(n)]
+		if all(lm):
+			lm[0] = False
+		chk.case("arith_meta", {"dates": dates, "days": days, "form": form, "promoted": rng.random() < 0.4, "left_mask": lm, "right_mask": rm}, "arith-meta")
 	# per-group aggregates
 	for _ in range(150 if chk.quick() else 1000):
 		n = rng.choice([1, 2, 3, 5, 8])
@@ -537,4 +670,4 @@ def run(chk):
 		vals = [None if rng.random() < 0.4 else rng.choice(dom) for _ in range(n)]
 		if rng.random() < 0.3:
 			vals = [None if k == keys[0] else v for k, v in zip(keys, vals)]
-		chk.case("group_reduce", {"keys": keys, "values": vals, "kind": kind}, "group-reduce")
+		chk.case("group_reduce", {"keys": keys, "values": vals, "kind": kind, "count_key": rng.choice([None, "name", "vector"])}, "group-reduce")
